@@ -22,7 +22,8 @@ RULE = ('Hypothesis chains (1-30 steps, each one eval of a single statement on a
         '+ - * / **, x op= b, c[k] op= b, d[k] op= b, int/float/round/floor/ceil/abs/sum/min/max, squaring and *= chains, '
         'failing steps (sum of a mixed list) after which the chain continues; 1 case in 10 is a closed program whose '
         'operands come from len/index_of/enumerate/sum/reduce (Python ints made by builtins), squared up to 9 times, '
-        'evaluated with names omitted / None / {} and ast_names omitted / None / {}. Oracle per step: (1) * ** *= on numbers give '
+        'evaluated with names omitted / None / {} and ast_names omitted / None / {}; 1 case in 25 calls every table entry '
+        'that is missing from the frozen shape tables (a builtin added later) with int / list arguments. Oracle per step: (1) * ** *= on numbers give '
         'a Decimal with <= 28 coefficient digits or raise ArithmeticError/ParserError, and never a str/list with a '
         'non-number operand; (2) every other numeric result has digits <= max(28, 1 + widest argument) (float results are '
         'fixed-size and exempt; float arguments count by their exact expansion); float() returns a number. Non-trivial: an '
@@ -170,11 +171,55 @@ def run_closed(case):
     return fails, info
 
 
+def run_new_builtins(case):
+    """table entries that did not exist when the shape tables were frozen: a new builtin that returns numbers for numeric
+    arguments is a numeric builtin, and is held to the general digit bound (one extra digit per element of a list argument)"""
+    import smartquery.functions as Fn
+    from sqv.gen import shapes
+    reset_context()
+    a, b = core.dec(case['a']), core.dec(case['b'])
+    lst = core.dec(case.get('l', [])) or [a, b]
+    fails = []
+    info = {'steps': 0, 'interesting': False, 'matrix': {}}
+    new = sorted(set(Fn.FUNCTIONS) - set(shapes.SHAPES))
+    p = parser()
+    for name in new:
+        for src, args in ((f'{name}(l)', lst), (f'{name}(a, b)', [a, b]), (f'{name}(a)', [a]), (f'{name}([a, a, a, a])', [a] * 4), (f'l | {name}', lst),
+                          (f'{name}([a, a], b)', [a, a, b]), (f'x = {name}([a, a])\nx = {name}([x, x])\nx = {name}([x, x])\nx', [a] * 8)):
+            info['steps'] += 1
+            try:
+                r = p.eval(src, {'a': a, 'b': b, 'l': list(lst)}, max_ops_evaluated=10 ** 4)
+            except Exception:  # noqa
+                continue
+            info['matrix'][f'new-builtin:{name}'] = info['matrix'].get(f'new-builtin:{name}', 0) + 1
+            if not all(is_num(x) for x in args):
+                if isinstance(r, (str, list)) and any(isinstance(x, (str, list)) and len(x) > 0 and len(r) >= 2 * len(x) and r == x * (len(r) // len(x)) for x in args):
+                    fails.append(Failure(f'new-builtin:repeat:{name}', f'{src} with a={short(a)} b={short(b)} l={[short(x) for x in lst]}: '
+                                                                       f'a {tname(r)} argument came back repeated: {repr(r)[:80]}', case))
+                    break
+                continue
+            for x in (r if isinstance(r, list) else [r]):
+                if is_num(x) and not isinstance(x, float):
+                    allowed = max(28, len(args) + max([digits_arg(v) for v in args] or [0]))
+                    if digits_result(x) > allowed:
+                        info['interesting'] = True
+                        fails.append(Failure(f'new-builtin:wide:{name}', f'{src} with a={short(a)} b={short(b)} l={[short(v) for v in lst]}: '
+                                                                         f'result has >= {digits_result(x)} significant digits, allowed {allowed}', case))
+                        break
+            if fails:
+                break
+        if fails:
+            break
+    return fails, info
+
+
 def run_chain(case):
     """executed in the helper: -> (failures, info)"""
     from smartquery import ParserError
     if case.get('closed'):
         return run_closed(case)
+    if case.get('new_builtins'):
+        return run_new_builtins(case)
     reset_context()
     a, b = core.dec(case['a']), core.dec(case['b'])
     names = {'a': a, 'b': b, 'c': [a], 'd': {'k': a}, 'l': core.dec(case.get('l', [])) or [a, b],
@@ -360,6 +405,10 @@ def cases(draw):
     lst = None
     if n(3) == 0:
         lst = [num() for _ in range(1 + n(8))]
+    if n(25) == 0:
+        nn = ['ab', [1, 2]] if n(4) == 0 else []
+        return {'new_builtins': True, 'a': core.enc(pick(INTS + [True, D(3), D('9' * 28)])), 'b': core.enc(pick(INTS + [2, 3])),
+                'l': core.enc(nn + [pick(INTS) for _ in range(2 + n(6))]), 'steps': [{'src': 'every table entry missing from the frozen shape tables'}]}
     return {'a': core.enc(a), 'b': core.enc(b), 'l': core.enc(lst) if lst else [], 'steps': steps, 'excluded': excluded}
 
 
@@ -387,7 +436,7 @@ def run_job(job):
             matrix[k] = matrix.get(k, 0) + v
         st.add('steps', info['steps'])
         return hyp.Result(fails, info['interesting'] and bool(case['steps']),
-                          ['closed-program:names-' + case['style']] if case.get('closed') else ['chain' if len(case['steps']) > 3 else 'short'],
+                          ['closed-program:names-' + case['style']] if case.get('closed') else (['new-builtins-sweep'] if case.get('new_builtins') else ['chain' if len(case['steps']) > 3 else 'short']),
                           key=core.jdump(case),
                           sample={'a': case['a'], 'b': case['b'], 'steps': [s['src'] for s in case['steps']][:12]})
 
